@@ -8,7 +8,12 @@ and enumerates its histories.
 Replay: (a) the rational instances through the real strategies against TLC's exact values, (b) every lattice cell on seeded
 RBF / Matern models against the closed form on the model's own prior, (c) training-mode histories with optimizer steps,
 (d) whitened against unwhitened strategy on the same q(u), (e) the multitask wrappers on a stub base strategy (latent q(f), q(u), p(u)
-with the instance's batch layout) against TLC's exact mixtures, KL sums and shapes."""
+with the instance's batch layout) against TLC's exact mixtures, KL sums and shapes, (f) every cell of strategy x distribution x base strategy
+x CODE PATH (the settings that select another branch of forward or of the linear algebra below it: skip_posterior_variances, fast_pred_var,
+max_cholesky_size(0) = conjugate gradients, trace_mode, fast_computations off, eager kernels) along histories of the evaluation-mode call
+protocol enumerated by TLC (first prediction under the path; train() / training-mode calls through the whole forward or through the
+inputs-are-the-inducing-points return / optimizer steps / eval(); load_state_dict(); further predictions under the path or the default
+settings, on the same or on other inputs): every prediction is the closed form for the CURRENT parameters and the inputs of the call."""
 import itertools
 import math
 import os
@@ -36,7 +41,9 @@ RT, AT = 1e-7, 1e-9
 CIQ_RT, CIQ_AT = 2e-6, 1e-8          # contour integral quadrature is iterative; tightened settings, see ciq_settings()
 
 
-INTENDED = dict(lmckl="named", imtkl="named", imtmask="to")       # VariationalQF.tla Variant: every reduction over the NAMED dimension
+# VariationalQF.tla Variant: every reduction over the NAMED dimension; evaluation-mode protocol: nothing a path retains is read back,
+# load_state_dict() and train() / eval() drop what is memoised
+INTENDED = dict(lmckl="named", imtkl="named", imtmask="to", reuse=False, reusex=False, loadclear=True, modeclear=True)
 
 
 def write_mc(workdir, name, part, instances=(), invariants=(), maxhist=5, clear=True, variant=None):
@@ -618,7 +625,7 @@ def seeded_setup(torch, cfg):
 
 
 def cell_desc(cfg):
-    extra = "".join(" %s=%s" % (q, cfg[q]) for q in ("variant", "mvd", "kb", "base", "Q", "T", "ld", "given", "task_indices", "x_is_z", "x_at_nodes", "jitter") if cfg.get(q) is not None)
+    extra = "".join(" %s=%s" % (q, cfg[q]) for q in ("path", "variant", "mvd", "kb", "base", "Q", "T", "ld", "given", "task_indices", "x_is_z", "x_at_nodes", "jitter") if cfg.get(q) is not None)
     return "%s x %s inducing%s params%s inputs%s kernel=%s%s seed=%d" % (cfg["strat"], cfg["dist"], list(cfg["bz"]), list(cfg["bp"]), list(cfg["bx"]),
                                                                          cfg["kernel"], extra, cfg["seed"])
 
@@ -876,6 +883,233 @@ def run_same_qu(cfg):
 
 
 # ---------------------------------------------------------------------------------------------------------------------
+# (f) code paths of forward x evaluation-mode histories (VariationalQF.tla parts "paths" and "ehist")
+PATHS = ("default", "skipvar", "fastpredvar", "cg", "trace", "nofast", "eager")
+ITER_RT, ITER_AT = 2e-5, 2e-7          # solves run by conjugate gradients (tolerance 1e-12, full rank)
+SHORT_STRATS = ("VariationalStrategy", "UnwhitenedVariationalStrategy", "CiqVariationalStrategy")     # inputs == inducing points is expressible
+
+
+def path_settings(stack, path):
+    """the real settings of a path of VariationalQF.tla Paths"""
+    import gpytorch
+    S = gpytorch.settings
+    if path == "default":
+        cms = []
+    elif path == "skipvar":
+        cms = [S.skip_posterior_variances(True)]
+    elif path == "fastpredvar":
+        cms = [S.fast_pred_var(True)]
+    elif path == "cg":
+        cms = [S.max_cholesky_size(0), S.cg_tolerance(1e-12), S.eval_cg_tolerance(1e-12), S.max_cg_iterations(2000), S.max_preconditioner_size(0)]
+    elif path == "trace":
+        cms = [S.trace_mode(True)]
+    elif path == "nofast":
+        cms = [S.fast_computations(covar_root_decomposition=False, log_prob=False, solves=False)]
+    elif path == "eager":
+        cms = [S.lazily_evaluate_kernels(False)]
+    else:
+        raise core.Machinery("unknown path %r" % (path,))
+    for cm in cms:
+        stack.enter_context(cm)
+
+
+def path_tolerance(strat, path, own):
+    rt, at = tolerance(strat)
+    if own and path == "cg":
+        rt, at = max(rt, ITER_RT), max(at, ITER_AT)
+    return rt, at
+
+
+def well_conditioned(torch, cfg, model):
+    """the oracle side after a parameter change: cond(Kzz + jitter) <= 1e4 on every inducing set, q(u) covariance positive definite"""
+    from checks import c14_models as CM
+    strat = cfg["strat"]
+    vs = model.variational_strategy
+    sets = [v.inducing_points.detach() for v in (vs, getattr(vs, "base_variational_strategy", None)) if v is not None and hasattr(v, "inducing_points")]
+    for p in sets:
+        _, K = CM.prior_on(model, p)
+        K = K + (CM.GRID_PRIOR_JITTER if strat == "GridInterpolationVariationalStrategy" else CM.jit(cfg)) * CM.eye(K.shape[-1])
+        if not bool(torch.isfinite(K).all()) or float(torch.linalg.cond(K).max()) > 1e4:
+            return False
+    _, S = CM.dist_moments(cfg["dist"], CM.read_raw(cfg["dist"], CM.param_module(cfg, model)))
+    if S is not None:
+        ev = torch.linalg.eigvalsh(0.5 * (S + S.transpose(-1, -2)))
+        if not bool(torch.isfinite(ev).all()) or float(ev.min()) <= 0 or float((ev.max(-1)[0] / ev.min(-1)[0]).max()) > 1e4:
+            return False
+    return True
+
+
+def guarded_step(torch, cfg, model, g, dist):
+    """optimizer step that keeps the instance well conditioned (retried with the next seeded pseudo-gradients otherwise)"""
+    for _ in range(8):
+        before = [p.detach().clone() for p in model.parameters()]
+        if not opt_step(torch, model, g, dist):
+            raise core.Machinery("optimizer step changed nothing")
+        if well_conditioned(torch, cfg, model):
+            return
+        with torch.no_grad():
+            for p, b in zip(model.parameters(), before):
+                p.copy_(b)
+    raise core.Machinery("no well conditioned optimizer step for %r" % (cfg,))
+
+
+def train_var_of(ref, got, multitask):
+    dg = ref["cov"].diagonal(dim1=-1, dim2=-2)
+    return dg.reshape(*dg.shape[:-1], *got["var"].shape[-2:]) if multitask else dg
+
+
+def run_ehist(case):
+    """one cell of strategy x distribution x base x code path along one history of the evaluation-mode protocol: every prediction
+    (under the path or under the default settings) and every training-mode output is the closed form for the CURRENT parameters"""
+    torch = core.setup_torch()
+    from contextlib import ExitStack
+    from checks import c14_models as CM
+    cfg, hist, pinfo = case["cfg"], case["hist"], case["pinfo"]
+    strat, dist, path = cfg["strat"], cfg["dist"], cfg["path"]
+    base = cfg.get("base") if strat in WRAPPERS else None
+    name = ">".join(a + ("" if a not in ("Predict", "TrainCall") else ("+" if f else "-")) + (str(xs) if a == "Predict" else "") for a, f, xs in hist)
+    sigbase = "C14/%s/%s/path-%s" % (strat, dist, path)
+    cell = Cell(sigbase, cell_desc(cfg) + " history=%s" % name, case, ["ehist", strat, dist, base, path, name])
+    ok, r = core.guarded(lambda: setup_retry(torch, cfg))
+    if not ok:
+        if "Machinery" in str(r):
+            raise core.Machinery(str(r))
+        cell.add("build", False, str(r))
+        return cell.results
+    cfg2, (model, X) = r
+    g = torch.Generator().manual_seed(cfg2["seed"] + 1)
+    wrapper = strat in WRAPPERS
+    multitask = wrapper
+    model.eval()
+    # a call whose inputs ARE the inducing points (the unwhitened strategy refuses it for a point mass with an explicit RuntimeError)
+    can_short = (strat in SHORT_STRATS and model.variational_strategy.inducing_points.dim() == X.dim()
+                 and not (strat == "UnwhitenedVariationalStrategy" and dist == "Delta"))
+    # the second input set: same shape, other points
+    g2 = torch.Generator().manual_seed(cfg2["seed"] + 2)
+    if strat == "GridInterpolationVariationalStrategy":
+        X2 = gen_points(torch, g2, tuple(X.shape[:-2]), X.shape[-2], 1, -0.9, 0.9, 0.1)
+    else:
+        X2 = gen_points(torch, g2, tuple(X.shape[:-2]), X.shape[-2], X.shape[-1])
+    inputs = {1: X, 2: X2}
+    ver, loads = 1, 0
+    for n, (a, flag, xs) in enumerate(hist):
+        tag = "step%d-version%d" % (n, ver)
+        if a == "ToTrain":
+            model.train()
+        elif a == "ToEval":
+            model.eval()
+        elif a == "OptStep":
+            guarded_step(torch, cfg2, model, g, dist)
+            ver += 1
+        elif a == "LoadState":
+            loads += 1
+            _, (donor, _x) = setup_retry(torch, dict(cfg, seed=cfg["seed"] + 104729 * loads))
+            ok, r = core.guarded(lambda: model.load_state_dict(donor.state_dict()))
+            if not ok:
+                cell.add("load-raises", False, "%s: %s" % (tag, r))
+                break
+            if not well_conditioned(torch, cfg2, model):
+                raise core.Machinery("loaded state is not well conditioned: %r" % (cfg,))
+            ver += 1
+        elif a == "Predict":
+            own = bool(flag)
+            Xp = inputs[xs]
+            rt, at = path_tolerance(strat, path, own)
+
+            def call():
+                with ExitStack() as st, torch.no_grad():
+                    if own:
+                        path_settings(st, path)
+                    if strat == "CiqVariationalStrategy":
+                        ciq_settings(st)
+                    o = model(Xp)
+                    mean = o.mean.clone()
+                    cov = None
+                    if not (own and pinfo["cov"] == "optional"):
+                        cov = o.covariance_matrix.clone()
+                    else:
+                        # only the mean is requested: a covariance that is omitted comes back as zeros
+                        okc, c = core.guarded(lambda: o.covariance_matrix.clone())
+                        if okc and float(c.abs().max()) > 0.0:
+                            cov = c
+                return dict(mean=mean, cov=cov)
+            ok, got = core.guarded(call)
+            what = ("own" if own else "default-settings") + "-inputs%d" % xs
+            if not ok:
+                cell.add("eval-raises@%s-%s" % (tag, what), False, "%s: %s" % (tag, got))
+                break
+            ref = CM.oracle(cfg2, model, Xp, "eval")
+            if collapsed_input_batch(torch, cell, cfg2, model, Xp, dict(got, var=got["mean"]), "eval"):
+                break
+            cell.close("eval-mean@%s-%s" % (tag, what), got["mean"], ref["mean"], rt, at)
+            if got["cov"] is not None:
+                rc = ref["cov"]
+                if not _matches(torch, got["cov"], rc, rt, at):
+                    hit = None
+                    for ar in alt_oracles(cfg2, model, Xp, "eval")():
+                        if _matches(torch, got["cov"], ar["cov"], rt, at):
+                            hit = ar["ov"]
+                            break
+                    if hit is not None:
+                        cell.results.append(dict(key=cell.keybase + ["eval-cov/drift", tag], ok=True, nontrivial=False, sig=cell.sigbase, case=None,
+                                                 drift="%s: eval-cov holds only under another jitter placement than StratInfo (%s)" % (cell.desc, hit)))
+                        continue
+                sig = None
+                if strat == "CiqVariationalStrategy" and dist == "Natural" and tuple(got["cov"].shape) == tuple(rc.shape):
+                    off = got["cov"] - torch.diag_embed(got["cov"].diagonal(dim1=-1, dim2=-2))
+                    if float(off.abs().max()) == 0.0 and _matches(torch, got["cov"].diagonal(dim1=-1, dim2=-2), rc.diagonal(dim1=-1, dim2=-2), rt, at):
+                        sig = "C14/%s/%s/eval-cov/diagonal-only" % (strat, dist)
+                if sig is None and wrapper and cfg2.get("variant") == "batchkernel" and cfg2.get("ld", -1) != -1:
+                    sig = SIG_LAZY_PERMUTE % strat
+                cell.close("eval-cov@%s-%s" % (tag, what), got["cov"], rc, rt, at, sig)
+        elif a == "TrainCall":
+            short = bool(flag) and can_short
+            Xc = model.variational_strategy.inducing_points.detach().clone() if short else X
+            rt, at = tolerance(strat)
+
+            def tcall():
+                with ExitStack() as st:
+                    if strat == "CiqVariationalStrategy":
+                        ciq_settings(st)
+                    o = model(Xc)                               # autograd records, as in a training loop
+                    mean, var = o.mean.detach().clone(), o.variance.detach().clone()
+                    model.variational_strategy.kl_divergence()   # the objectives ask for it after the call
+                return dict(mean=mean, var=var)
+            ok, got = core.guarded(tcall)
+            if not ok:
+                cell.add("train-raises@" + tag, False, "%s: %s" % (tag, got))
+                break
+            ocfg = dict(cfg2, x_is_z=True) if (short and strat == "UnwhitenedVariationalStrategy") else cfg2
+            ref = CM.oracle(ocfg, model, Xc, "train")
+            if collapsed_input_batch(torch, cell, cfg2, model, Xc, got, "train"):
+                break
+            cell.close("train-mean@" + tag, got["mean"], ref["mean"], rt, at)
+            dg = train_var_of(ref, got, multitask)
+            if not _matches(torch, got["var"], dg, rt, at):
+                hit = None
+                for ar in alt_oracles(ocfg, model, Xc, "train")():
+                    if _matches(torch, got["var"], train_var_of(ar, got, multitask), rt, at):
+                        hit = ar["ov"]
+                        break
+                if hit is not None:
+                    cell.results.append(dict(key=cell.keybase + ["train-var/drift", tag], ok=True, nontrivial=False, sig=cell.sigbase, case=None,
+                                             drift="%s: train-var holds only under another jitter placement than StratInfo (%s)" % (cell.desc, hit)))
+                    continue
+            cell.close("train-var@" + tag, got["var"], dg, rt, at)
+        else:
+            raise core.Machinery("unknown action %r" % (a,))
+    return cell.results
+
+
+def _matches(torch, g, w, r, a):
+    try:
+        full = torch.broadcast_shapes(g.shape, w.shape)
+    except RuntimeError:
+        return False
+    return core.close(g.expand(full), w.expand(full), r, a)[0]
+
+
+# ---------------------------------------------------------------------------------------------------------------------
 # (e) the multitask wrappers on a stub base strategy: exact decoding of the mixture
 def run_mix(case):
     """the wrappers on a stub base strategy whose batch shape, latent q(f) and q(u) / p(u) are the instance's; every expectation
@@ -983,6 +1217,8 @@ def run_case(case):
         return run_same_qu(case["cfg"])
     if kind == "mix":
         return run_mix(case)
+    if kind == "ehist":
+        return run_ehist(case)
     raise core.Machinery("unknown case kind %r" % kind)
 
 
@@ -995,6 +1231,8 @@ def _worker(item):
 
 
 WRAPPERS = ("LMCVariationalStrategy", "IndependentMultitaskVariationalStrategy")
+STRATS_ALL = ("VariationalStrategy", "UnwhitenedVariationalStrategy", "BatchDecoupledVariationalStrategy", "OrthogonallyDecoupledVariationalStrategy",
+              "CiqVariationalStrategy", "GridInterpolationVariationalStrategy") + WRAPPERS
 
 
 def lattice_cfgs(cells, seed, thorough):
@@ -1053,6 +1291,12 @@ def run(ck):
                "output shapes for the latent / task dimension at -1, -2, -3 (also as non-negative task_dim) with equal and unequal sizes of the other batch dimensions; in (b) "
                "the wrappers additionally range over that layout (parameters of batch shape pre + [Q] + post; Q in {2, 3} against a leading dimension of size 2; post sizes "
                "equal to / different from Q), kernels shared or with a batch shape, inducing points shared or per GP, inputs broadcast or spelled out over the post dimensions; "
+               "(f) every cell of strategy x distribution x base strategy (wrappers: whitened / unwhitened) x code path {default, skip_posterior_variances, fast_pred_var, "
+               "max_cholesky_size(0) (CG), trace_mode, fast_computations all off, lazily_evaluate_kernels off} taken through histories of TLC's evaluation-mode protocol machine "
+               "(length 6: first prediction under the path, then Predict(under the path / default settings, input set 1 / 2), train(), TrainCall(whole forward / inputs = inducing "
+               "points), optimizer step, eval(), load_state_dict()): six required histories (train more through the early return / the whole forward / without a call, "
+               "loads, other inputs; quick tier: two of them for every cell, the others rotating over the distributions / bases of a strategy x path) + a rotating sample of the others; every prediction's mean and covariance (where the path produces one) and every training-mode mean / variance "
+               "against the closed form for the current parameters and the inputs of the call; "
                "non-trivial = q(u) differs from the prior or the history contains an optimizer step before an observation (all cases except the q = p instances)")
     ck.assumptions = [
         "jitter is part of the prior the model evaluates to (VariationalQF.tla StratInfo); Kzz + jitter_val I defines p(u) and the whitening and is compared exactly; the "
@@ -1072,6 +1316,13 @@ def run(ck):
         "base: broadcast with the batch dimensions of inducing points, kernel and - in training mode after a call - inputs); a non-negative task_dim is exercised only where "
         "neither inputs nor inducing points add batch dimensions in front of the parameters' batch shape; num_latents always equals the size of the latent dimension "
         "(the size-1 'shared parameters' form of LMC is not exercised); task_dim beyond the rank of the batch shape (from_repeated_mvn) is not exercised",
+        "code paths / evaluation-mode histories: a setting that a strategy does not read must not change q(f); under skip_posterior_variances only the mean is requested and a "
+        "covariance that comes back as exact zeros counts as omitted (any other covariance is compared); kl_divergence() is not compared under the paths (its CG / Lanczos form is "
+        "stochastic); parameters change only through the protocol the caches are told about (optimizer steps in training mode between train() and eval(), load_state_dict() in "
+        "either mode) - an in-place change in evaluation mode behind the back of the memoised q(u) / Cholesky factor is C03's subject; jitter settings that change the VALUE of the "
+        "prior (variational_cholesky_jitter) are not a path here (the jitter-keyed Cholesky factor is a known C03 finding); a training-mode call on inputs equal to the inducing points "
+        "is made for the standard, unwhitened and CIQ strategies only (the unwhitened strategy refuses it for a point mass with an explicit RuntimeError; wrappers and the other "
+        "strategies take the whole forward instead); CG path: cg_tolerance = eval_cg_tolerance = 1e-12, no preconditioner, 2e-5 relative + 2e-7 absolute",
         "float64, 2-3 inducing points (rational) / 3 (seeded), cond(Kzz + jitter) <= 1e4 checked on the oracle side, 1e-7 relative + 1e-9 absolute; CIQ with tightened solver "
         "settings at 2e-6 + 1e-8; optimizer step = torch.optim.SGD.step() on seeded pseudo-gradients for every parameter"]
     wd = os.path.join(tlc.BUILD, PID)
@@ -1094,17 +1345,32 @@ def run(ck):
               ("mix_lmc_kl_last", "mix", hard, MIXINV, dict(variant=dict(lmckl="last"))),
               ("mix_imt_kl_last", "mix", hard, MIXINV, dict(variant=dict(imtkl="last"))),
               ("mix_imt_mask_from", "mix", hard, MIXINV, dict(variant=dict(imtmask="from"))))
+    EL = 6                                         # length of the evaluation-mode histories (the first prediction included)
+    EINV = ["EObservesCurrent"]
+    broken += (("ehist_reuse", "ehist", [], EINV, dict(maxhist=EL, variant=dict(reuse=True))),
+               ("ehist_reusex", "ehist", [], EINV, dict(maxhist=EL, variant=dict(reusex=True))),
+               ("ehist_noloadclear", "ehist", [], EINV, dict(maxhist=EL, variant=dict(loadclear=False))),
+               ("ehist_nomodeclear", "ehist", [], EINV, dict(maxhist=EL, variant=dict(modeclear=False))),
+               ("ehist_notrainclear", "ehist", [], EINV, dict(maxhist=EL, clear=False)))
+    dumped = ("mix", "lattice", "hist", "paths", "ehist")
     for name, part, insts, inv, kw in (("mix", "mix", mixes, MIXINV, {}), ("lattice", "lattice", [], [], {}),
-                                       ("hist", "hist", [], ["ObservesCurrent"], dict(maxhist=L))) + broken:
+                                       ("hist", "hist", [], ["ObservesCurrent"], dict(maxhist=L)),
+                                       ("paths", "paths", [], [], {}), ("ehist", "ehist", [], EINV, dict(maxhist=EL))) + broken:
         mod, cfg = write_mc(wd, name, part, insts, inv, **kw)
-        jobs.append(((mod, cfg), dict(name=PID + "/" + name, dump=(name in ("mix", "lattice", "hist")), check=False, workers=2, coverage=False)))
+        jobs.append(((mod, cfg), dict(name=PID + "/" + name, dump=(name in dumped), check=False, workers=2, coverage=False)))
     rs = tlc.run_many(jobs, parallel=min(12, core.NPROC))
     blabels = ["call protocol without the training-mode clear (must be rejected)",
                "mix, LMC kl_divergence summed over the last instead of the latent dimension (must be rejected)",
                "mix, independent-multitask kl_divergence summed over the last instead of the task dimension (must be rejected)",
-               "mix, independent-multitask task mask permuted with the inverse permutation (must be rejected)"]
+               "mix, independent-multitask task mask permuted with the inverse permutation (must be rejected)",
+               "evaluation-mode protocol, a path reads back what it retained and only a full training-mode call drops it (must be rejected)",
+               "evaluation-mode protocol, a path reads back an input-dependent intermediate result whatever the inputs of the call (must be rejected)",
+               "evaluation-mode protocol, load_state_dict() keeps what is memoised (must be rejected)",
+               "evaluation-mode protocol, train() / eval() keep what is memoised (must be rejected)",
+               "evaluation-mode protocol without the training-mode clear (must be rejected)"]
     labels = ["qf chunk %d (exact rationals: code-shaped = denotation)" % q for q in range(nchunk)] + [
-        "mix (multitask wrappers, every position of the latent / task dimension)", "lattice", "call protocol"] + blabels
+        "mix (multitask wrappers, every position of the latent / task dimension)", "lattice", "call protocol",
+        "code paths (strategy x distribution x base x setting)", "evaluation-mode call protocol"] + blabels
     for lab, r in zip(labels, rs):
         ck.add_tlc(r, lab)
     for lab, r in list(zip(labels, rs))[:-len(blabels)]:
@@ -1112,7 +1378,7 @@ def run(ck):
             ck.model_drift("VariationalQF.tla %s violates %s: %s" % (lab, r.violation["name"], str(r.violation["trace"][:1])[:300]))
         elif r.rc != 0:
             raise tlc.TLCError("TLC failed on VariationalQF %s:\n%s" % (lab, r.stdout[-1500:]))
-    for lab, r, want in zip(blabels, rs[-len(blabels):], ("ObservesCurrent", "MixKLOK", "MixKLOK", "MixOK")):
+    for lab, r, want in zip(blabels, rs[-len(blabels):], ("ObservesCurrent", "MixKLOK", "MixKLOK", "MixOK") + ("EObservesCurrent",) * 5):
         if not r.violation or r.violation["name"] != want:
             ck.vacuous("%s: TLC did not report a violation of %s" % (lab, want))
     # TLC's exact evaluation, validated against the mirror (a mismatch is a machinery failure)
@@ -1239,8 +1505,75 @@ def run(ck):
                 cfg["jitter"] = [None, 0.03][(n + hn) % 2]
             cases.append(dict(kind="hist", cfg=cfg, hist=list(h)))
             n_hist += 1
+    # (f) code paths x evaluation-mode histories
+    pstates = rs[nchunk + 3].states()
+    pcells = sorted((dict(jsonable(st["c"]), info=jsonable(st["out"])) for st in pstates), key=lambda c: (c["strat"], c["dist"], c["base"], c["path"]))
+    if {c["path"] for c in pcells} != set(PATHS):
+        raise core.Machinery("the paths of VariationalQF.tla %s differ from the settings the replay knows %s" % (sorted({c["path"] for c in pcells}), PATHS))
+    for sname in STRATS_ALL:
+        for pth in PATHS:
+            if not any(c["strat"] == sname and c["path"] == pth for c in pcells):
+                ck.vacuous("paths: no cell of %s under path %s" % (sname, pth))
+    ehists = set()
+    for st in rs[nchunk + 4].states():
+        h = tuple((e["a"], bool(e["flag"]), int(e["xs"])) for e in st["out"])
+        acts = [x[0] for x in h]
+        if len(h) == EL and acts[-1] == "Predict" and ("OptStep" in acts or "LoadState" in acts or any(x[2] == 2 for x in h)):
+            ehists.add(h)
+    ehists = sorted(ehists)
+    P, P2, Pd, Pd2 = ("Predict", True, 1), ("Predict", True, 2), ("Predict", False, 1), ("Predict", False, 2)
+    TT, TE, OS, LS = ("ToTrain", False, 0), ("ToEval", False, 0), ("OptStep", False, 0), ("LoadState", False, 0)
+    TCs, TCf = ("TrainCall", True, 1), ("TrainCall", False, 1)
+    # histories every cell is taken through: train-more through the early return / through the whole forward / without a call, and loads,
+    # each followed by a prediction under the same path on the same and on the other inputs; other inputs without a change
+    must_prefixes = [(P, TT, TCs, OS, TE, P), (P, TT, TCf, OS, TE, P2), (P, LS, P, LS, Pd, P2), (P, TT, OS, TCs, TE, P), (P, TT, OS, TE, P2, Pd2),
+                     (P, P2, P, LS, P2, P)]
+    musts = []
+    for mp in must_prefixes:
+        hit = [h for h in ehists if h[:len(mp)] == mp]
+        if not hit:
+            ck.vacuous("evaluation-mode protocol: no generated history starts with %s" % (mp,))
+        else:
+            musts.append(hit[0])
+    if len(musts) != len(must_prefixes):
+        raise core.Machinery("evaluation-mode protocol: required histories were not generated")
+    for a in ("Predict", "ToTrain", "ToEval", "TrainCall", "OptStep", "LoadState"):
+        if not any(a in [x[0] for x in h[1:]] for h in ehists):
+            ck.vacuous("evaluation-mode protocol: action %s never taken" % a)
+    rest = [h for h in ehists if h not in musts]
+    n_eh = 0
+    for n, pc in enumerate(pcells):
+        cands = [c for c in hcells if c["strat"] == pc["strat"] and c["dist"] == pc["dist"]]
+        if pc["strat"] == "BatchDecoupledVariationalStrategy":
+            cands = [c for c in cands if c["mv"] == (0, -1)[n % 2]]
+        if not cands:
+            raise core.Machinery("paths: no lattice cell for %r" % (pc,))
+        if thorough:
+            pick = musts + [h for q, h in enumerate(rest) if (q + n) % 100 == 0]
+        else:
+            # the two histories of the missed change for every cell; the other required ones (other inputs, whole forward, ...) and the remaining
+            # histories rotate over the cells (5 distributions / 2 bases per strategy x path)
+            rot = [musts[1], musts[5], musts[3], rest[(n * 37) % len(rest)], musts[4], rest[(n * 37 + 11) % len(rest)]]
+            pick = [musts[0], musts[2], rot[n % 6], rot[(n + 1) % 6]]
+        seen = set()
+        for hn, h in enumerate(pick):
+            if pc["path"] == "default":                                     # the path of the cell IS the default: one kind of prediction
+                h = tuple((a, True, xs) if a == "Predict" else (a, f, xs) for a, f, xs in h)
+            if h in seen:
+                continue
+            seen.add(h)
+            cfg = [x for x in lattice_cfgs([cands[0]], ck.seed + 11 + n + hn, False) if x.get("task_indices") is None][0]
+            cfg["kernel"] = ["rbf", "matern25", "matern15"][(n + hn) % 3]
+            if pc["strat"] != "GridInterpolationVariationalStrategy":
+                cfg["jitter"] = [None, 0.03][(n // 7 + hn) % 2]
+            if pc["base"] != "none":
+                cfg["base"] = pc["base"]
+            cfg["path"] = pc["path"]
+            cases.append(dict(kind="ehist", cfg=cfg, hist=[list(x) for x in h], pinfo=pc["info"]))
+            n_eh += 1
     ck.section("replay", rational_cases=n_rat, mixture_cases=n_mix, lattice_cells=len(cells), seeded_configurations=len(lat) + extra,
-               same_qu_configurations=n_same, histories=len(hists), history_cases=n_hist)
+               same_qu_configurations=n_same, histories=len(hists), history_cases=n_hist, path_cells=len(pcells), eval_histories=len(ehists),
+               eval_history_cases=n_eh)
     ck.extra["observations"] = [
         "UnwhitenedVariationalStrategy.prior_distribution adds add_jitter()'s default 1e-3 and ignores jitter_val, while forward() uses jitter_val: for the same "
         "parameters kl_divergence() in evaluation mode (or before the first training-mode call) differs from kl_divergence() in training mode after a call "
@@ -1249,6 +1582,8 @@ def run(ck):
     ck.extra["exhaustive_parts"] = dict(lattice="all %d valid cells of strategy x distribution x batch shapes in {(), (2,)}^3 x (multitask wrappers) position of the latent / "
                                                 "task dimension in {-1, -2, -3} x sizes of the dimensions behind it {equal to, different from} the number of latents x Q in {2, 3} "
                                                 "against a leading dimension of size 2 x (independent wrapper) negative / non-negative task_dim" % len(cells),
+                         paths="all %d cells of strategy x distribution x base strategy x code path; the %d evaluation-mode histories of length %d ending in a prediction are "
+                               "sampled per cell (quick: 2 required + 2 rotating over the 4 other required ones and the rest; thorough: 6 required + every 100th of the rest, rotating)" % (len(pcells), len(ehists), EL),
                          histories="all %d training-mode histories of length %d over {Forward, KL, OptStep} that start with a call, contain a step and end with an observation" % (len(hists), L))
     items = [cases[q:q + 6] for q in range(0, len(cases), 6)]
     rnd.shuffle(items)
